@@ -143,6 +143,14 @@ func (p *c04Params) chainKeys() *c04Keys {
 	}
 }
 
+// signExpiry: expiry of the signing account without deriving any keys.
+func (p *c04Params) signExpiry() uint32 {
+	if p.Foreign == "expiry" {
+		return p.ForeignExpiry
+	}
+	return p.Expiry
+}
+
 func (p *c04Params) signKeys() *c04Keys {
 	k := p.chainKeys()
 	switch p.Foreign {
@@ -568,6 +576,10 @@ func (s *c04Store) LockID() (wtxmgr.LockID, error)        { return wtxmgr.LockID
 // spending transaction from what the trader sends and signs with its own key
 // for the account parameters it was handed.
 type c04Auctioneer struct {
+	// truth (optional): the parameters of the output that is really on chain
+	// according to the auctioneer's own records; it signs for those, not for
+	// what the trader believes
+	truth  *c04Keys
 	priv   *btcec.PrivateKey
 	signed *wire.MsgTx
 	amount int64
@@ -586,10 +598,16 @@ func (a *c04Auctioneer) Terms(context.Context) (*terms.AuctioneerTerms, error) {
 	return &terms.AuctioneerTerms{MaxAccountValue: 10_0000_0000}, nil
 }
 
-func (a *c04Auctioneer) ModifyAccount(_ context.Context, acct *account.Account,
+func (a *c04Auctioneer) ModifyAccount(_ context.Context, traderView *account.Account,
 	inputs []*wire.TxIn, outputs []*wire.TxOut, mods []account.Modifier,
 	traderNonces []byte, prevOutputs []*wire.TxOut) ([]byte, []byte, error) {
 
+	acct := traderView
+	if a.truth != nil {
+		acct = traderView.Copy()
+		acct.Expiry, acct.BatchKey, acct.Secret = a.truth.expiry, a.truth.batchKey, a.truth.secret
+		acct.Version, acct.Value = a.truth.version, a.truth.value
+	}
 	tx := wire.NewMsgTx(2)
 	tx.TxIn = append(tx.TxIn, &wire.TxIn{PreviousOutPoint: acct.OutPoint})
 	for _, in := range inputs {
@@ -634,6 +652,8 @@ func (a *c04Auctioneer) ModifyAccount(_ context.Context, acct *account.Account,
 		if len(prevOutputs) != len(tx.TxIn) {
 			return nil, nil, fmt.Errorf("prev outputs: %d for %d inputs", len(prevOutputs), len(tx.TxIn))
 		}
+		prevOutputs = append([]*wire.TxOut{}, prevOutputs...)
+		prevOutputs[idx] = acctOut // the auctioneer knows what it co-funded
 		ps, err := poolscript.TaprootMuSig2Sign(context.Background(), idx, sess, signer, tx,
 			prevOutputs, nil, nil)
 		if err != nil {
@@ -953,10 +973,24 @@ func c04BPriv(pubHex string) *btcec.PrivateKey {
 // makes before it signs (accepted, nothing persisted).
 type c04OrderStore struct {
 	*bStore
+	// staged: the account records as the database holds them once the batch
+	// is complete (the staged account modifiers applied)
+	staged map[[33]byte]*account.Account
 }
 
-func (s *c04OrderStore) StorePendingBatch(*order.Batch, []order.Nonce, [][]order.Modifier,
-	[]*account.Account, [][]account.Modifier) error {
+func (s *c04OrderStore) StorePendingBatch(_ *order.Batch, _ []order.Nonce, _ [][]order.Modifier,
+	accts []*account.Account, mods [][]account.Modifier) error {
+
+	s.staged = map[[33]byte]*account.Account{}
+	for i, a := range accts {
+		var k [33]byte
+		copy(k[:], a.TraderKey.PubKey.SerializeCompressed())
+		var ms []account.Modifier
+		if i < len(mods) {
+			ms = mods[i]
+		}
+		s.staged[k] = a.Copy(ms...)
+	}
 	return nil
 }
 
@@ -983,8 +1017,9 @@ func c04RunMgrBatch(r *Run, p *c04Params) {
 	}
 	ln := test.NewMockLightning()
 	ln.NodePubkey = c.Env.OurNode
+	ostore := &c04OrderStore{bStore: s.store}
 	m := order.NewManager(&order.ManagerConfig{
-		Store: &c04OrderStore{s.store}, AcctStore: s.accts, Lightning: ln, Wallet: &bWallet{}, Signer: tSigner,
+		Store: ostore, AcctStore: s.accts, Lightning: ln, Wallet: &bWallet{}, Signer: tSigner,
 		BatchVersion: order.BatchVersion(c.Env.Version),
 	})
 	if err := m.Start(); err != nil {
@@ -1125,7 +1160,159 @@ func c04RunMgrBatch(r *Run, p *c04Params) {
 		r.Violate("Pool could not sign the batch it accepted: "+serr.Error(), "C04/build-error", p)
 		return
 	}
+	nViolBefore := len(r.Violations)
 	c04FinishBatch(r, p, "mgrbatch", ents, nil, tx, prevOuts, idxOf, sess, aSigner, sigs, nonces)
+
+	// ---- the history continues: the batch confirms, the staged account
+	// records become the stored ones, and the trader later spends each
+	// re-created output through the account manager with the STORED record
+	if len(r.Violations) > nViolBefore {
+		return // this case already has its failing input
+	}
+	for _, e := range ents {
+		d := diffOf[hex.EncodeToString(e.key[:])]
+		if d == nil || d.EndingState != 0 || d.OutpointIndex < 0 || int(d.OutpointIndex) >= len(tx.TxOut) {
+			continue
+		}
+		stored := ostore.staged[e.key]
+		if stored == nil {
+			r.Count("oracle/violation")
+			r.Violate("BatchSign staged no record for a charged account whose output is re-created",
+				"C04/followup-unstaged", p)
+			continue
+		}
+		inc := 9
+		if stored.BatchKey.IsEqual(poolscript.IncrementKey(e.k.batchKey)) {
+			inc = 1
+		} else if stored.BatchKey.IsEqual(e.k.batchKey) {
+			inc = 0
+		}
+		r.Emit(fmt.Sprintf("C04 stage %s %s %d %d %d %d %d %d", c04B(bSupportsExt(c.Msg.Version)),
+			c04B(bSupportsUpgrade(c.Msg.Version)), int64(e.k.value), e.k.expiry, e.k.version, d.EndingBalance,
+			d.NewExpiry, d.NewVersion), fmt.Sprintf("%d %d %d %d", int64(stored.Value), stored.Expiry,
+			stored.Version, inc))
+		r.Count("stage")
+		out := tx.TxOut[d.OutpointIndex]
+		truth := &c04Keys{trader: e.k.trader, auct: e.k.auct, batchKey: poolscript.IncrementKey(e.k.batchKey),
+			secret: e.k.secret, expiry: e.k.expiry, version: e.k.version, value: btcutil.Amount(out.Value)}
+		if bSupportsExt(c.Msg.Version) && d.NewExpiry != 0 {
+			truth.expiry = d.NewExpiry
+		}
+		if bSupportsUpgrade(c.Msg.Version) && d.NewVersion&0xff > uint32(truth.version) && d.NewVersion&0xff < 3 {
+			truth.version = account.Version(d.NewVersion)
+		}
+		if !bytes.Equal(truth.pkScript(), out.PkScript) {
+			r.Count("followup/harness-view-differs")
+			continue
+		}
+		switch {
+		case d.NewExpiry == 0:
+			r.Count("followup/expiry-unchanged")
+		case d.NewExpiry < e.k.expiry:
+			r.Count("followup/expiry-lowered")
+		case d.NewExpiry == e.k.expiry:
+			r.Count("followup/expiry-same")
+		default:
+			r.Count("followup/expiry-raised")
+		}
+		c04FollowUp(r, p, stored, truth, tx.TxHash(), uint32(d.OutpointIndex), d.EndingBalance%2 == 0)
+	}
+}
+
+// c04FollowUp spends a re-created account output through the account manager
+// (CloseAccount, cooperative before expiry or trader-only after it) using the
+// record the trader STORED for it, with an auctioneer that signs for what is
+// really on chain (truth), and judges the spend against the on-chain output.
+func c04FollowUp(r *Run, p *c04Params, stored *account.Account, truth *c04Keys, txid [32]byte, index uint32,
+	afterExpiry bool) {
+
+	stored = stored.Copy()
+	stored.State = account.StateOpen
+	stored.OutPoint = wire.OutPoint{Hash: txid, Index: index}
+	if stored.LatestTx == nil {
+		stored.LatestTx = wire.NewMsgTx(2)
+	}
+	best := stored.Expiry
+	if truth.expiry < best {
+		best = truth.expiry
+	}
+	best-- // before both expiries: cooperative close
+	if afterExpiry {
+		best = stored.Expiry
+		if truth.expiry > best {
+			best = truth.expiry
+		}
+		best++
+	}
+	store := &c04Store{acct: stored}
+	wallet := &c04Wallet{priv: truth.trader}
+	auct := &c04Auctioneer{priv: truth.auct, truth: truth}
+	mgr := account.NewManager(&account.ManagerConfig{
+		Store: store, Auctioneer: auct, Wallet: wallet, Signer: newC04Signer(truth.trader),
+		ChainParams: &chaincfg.TestNet3Params,
+		LndVersion:  &verrpc.Version{AppMajor: 0, AppMinor: 15, AppPatch: 1},
+	})
+	var (
+		tx  *wire.MsgTx
+		err error
+	)
+	func() {
+		defer func() {
+			if x := recover(); x != nil {
+				err = fmt.Errorf("panic: %v", x)
+			}
+		}()
+		tx, err = mgr.CloseAccount(context.Background(), stored.TraderKey.PubKey, &account.OutputWithFee{
+			PkScript: append([]byte{0, 20}, make([]byte, 20)...), FeeRate: chainfee.SatPerKWeight(300),
+		}, best)
+	}()
+	r.Count("path/followup")
+	kind := "followup-coop"
+	if afterExpiry {
+		kind = "followup-expiry"
+	}
+	r.Count("kind/" + kind)
+	if err != nil && strings.Contains(err.Error(), "results in dust") {
+		// the re-created output is too small to pay for its own close
+		r.Count("followup/too-small-to-close")
+		return
+	}
+	if err != nil {
+		r.Count("oracle/violation")
+		r.Violate(fmt.Sprintf("Pool cannot spend the account output re-created by the batch it signed, using its stored "+
+			"record (stored expiry %d version %d; on chain: expiry %d version %d): %v", stored.Expiry, stored.Version,
+			truth.expiry, truth.version, err), "C04/followup", p)
+		return
+	}
+	sp := &c04Spend{tx: tx, poolWit: true}
+	for i, in := range tx.TxIn {
+		if in.PreviousOutPoint == stored.OutPoint {
+			sp.idx = i
+		}
+	}
+	// who signed what: the trader for its stored record, the auctioneer for
+	// the on-chain parameters
+	sk := &c04Keys{trader: truth.trader, auct: truth.auct, batchKey: stored.BatchKey, secret: stored.Secret,
+		expiry: stored.Expiry, version: stored.Version, value: stored.Value}
+	w := tx.TxIn[sp.idx].Witness
+	amount := int64(truth.value)
+	if stored.Version == account.VersionInitialNoVersion && len(w) == 3 {
+		if len(w[1]) > 0 {
+			sp.sigs = append(sp.sigs, &c04SigRec{sig: w[1], pk: sk.tweakedTrader().SerializeCompressed(), ver: 0,
+				tx: c04TxTag(0, tx, int64(stored.Value), sk.pkScript()), code: sk.witnessScript(),
+				ht: int(txscript.SigHashAll)})
+		}
+		if len(w[0]) > 0 && truth.version == account.VersionInitialNoVersion {
+			sp.sigs = append(sp.sigs, &c04SigRec{sig: w[0], pk: truth.tweakedAuct().SerializeCompressed(), ver: 0,
+				tx: c04TxTag(0, tx, amount, truth.pkScript()), code: truth.witnessScript(),
+				ht: int(txscript.SigHashAll)})
+		}
+	} else {
+		c04Describe(sp, sk, int64(stored.Value))
+	}
+	pj := &c04Params{Path: "followup", Kind: "manager", Version: uint8(truth.version), Expiry: truth.expiry,
+		Value: int64(truth.value), LockTime: best}
+	c04Judge(r, pj, p, truth, sp, amount, nil)
 }
 
 // c04Ent is one account taking part in a batch.
@@ -1766,7 +1953,8 @@ func c04Judge(r *Run, p *c04Params, replay interface{}, ck *c04Keys, sp *c04Spen
 	default:
 		expect, what = "valid", "a spend signed by trader and auctioneer must be valid at any lock time"
 	}
-	if (p.Path == "close" || p.Path == "renew" || p.Path == "withdraw" || p.Path == "deposit") && !foreign && expect == "invalid" &&
+	if (p.Path == "close" || p.Path == "renew" || p.Path == "withdraw" || p.Path == "deposit" ||
+		p.Path == "followup") && !foreign && expect == "invalid" &&
 		!(p.StateExpired && p.LockTime < p.Expiry) {
 		// Pool's own spend of its own account must be valid, except in the
 		// stated corner (State == Expired handed a best height below expiry)
@@ -1779,7 +1967,7 @@ func c04Judge(r *Run, p *c04Params, replay interface{}, ck *c04Keys, sp *c04Spen
 			what, verdict, p.Path, p.Kind, p.Version, p.Expiry, lockTime), "C04/spend", replay)
 	}
 	// classification: a Pool-built witness is classified like the path it takes
-	if sp.poolWit && p.Expiry < 1<<23 && p.signKeys().expiry < 1<<23 {
+	if sp.poolWit && p.Expiry < 1<<23 && p.signExpiry() < 1<<23 {
 		want := "multisig"
 		if isExpiryShape {
 			want = "expiry"
@@ -1924,6 +2112,29 @@ func c04Gen(r *Run) *c04Params {
 				break
 			}
 		}
+		// the auctioneer picks the new expiry of one account freely: below,
+		// equal to or above the current one (the trader only bounds it from
+		// above); everything else is re-settled consistently
+		if len(c.Devs) == 0 && len(c.Env.Accounts) > 0 && bSupportsExt(c.Msg.Version) && r.Rng.Intn(2) == 0 {
+			ai := r.Rng.Intn(len(c.Env.Accounts))
+			cur := c.Env.Accounts[ai].Expiry
+			v := cur
+			switch r.Rng.Intn(5) {
+			case 0, 1:
+				if cur > 2 {
+					v = cur - uint32(1+r.Rng.Intn(int(min(cur-1, 3000))))
+				}
+			case 2:
+				v = cur
+			default:
+				v = cur + uint32(1+r.Rng.Intn(3000))
+			}
+			if uint64(v) <= uint64(c.Best)+uint64(bMaxAccountExpiry) && v != 0 {
+				h := &bHostile{expiry: map[int]uint32{ai: v}, version: map[int]uint32{}, dup: -1, keepValues: true}
+				g.settle(c, h)
+				c.Devs = []string{}
+			}
+		}
 		js, _ := json.Marshal(c)
 		p.MgrCase = js
 		return p
@@ -1952,6 +2163,11 @@ func c04Gen(r *Run) *c04Params {
 			}
 			if order.BatchVersion(p.BatchVersion).SupportsAccountExtension() && r.Rng.Intn(2) == 0 {
 				a.NewExpiry = a.Expiry + uint32(1+r.Rng.Intn(4000))
+				if x := r.Rng.Intn(5); x == 0 && a.Expiry > 2 {
+					a.NewExpiry = a.Expiry - uint32(1+r.Rng.Intn(int(min(a.Expiry-1, 3000))))
+				} else if x == 1 {
+					a.NewExpiry = a.Expiry
+				}
 			}
 			a.EndingBalance = a.Value - int64(1000+r.Rng.Intn(200_000))
 			if r.Rng.Intn(10) == 0 {
